@@ -101,10 +101,21 @@ Proof.
   - exists O. do 2 eexists. split; [|intros; reflexivity]. discriminate.
 Qed.
 
+Lemma igather_nd : forall args st st' ob, igather st args = inr (st', ob) -> ob <> ODiverge.
+Proof.
+  induction args as [|a args IH]; intros st st' ob H; cbn [igather] in H; [discriminate|].
+  destruct a as [j|l].
+  - destruct (igive st j) as [[[st1 it]|]|e]; try (inversion H; subst; discriminate).
+    destruct (igather st1 args) as [[st2 its]|[st2 ob2]] eqn:E; [discriminate|].
+    inversion H; subst. eapply IH; eauto.
+  - destruct (igather st args) as [[st2 its]|[st2 ob2]] eqn:E; [discriminate|].
+    inversion H; subst. eapply IH; eauto.
+Qed.
+
 Lemma istep_settles : forall h os st o, R (IS h os) st -> settles (IS h os) o.
 Proof.
   intros h os st o HR.
-  destruct o as [i|i c|i c|i c|i c|i|i p|i f|i p|i n|i|i n|z n|z n|i j|m|e].
+  destruct o as [i|i c|i c|i c|i c|i|i p|i f|i p|i n|i|i n|z n|z n|i j|m|e|tgt args].
   - unfold settles. cbn [istep i_objs]. destruct (nth_error os i) as [[it|its|]|] eqn:Eo;
       try (exists O; do 2 eexists; split; [|intros; reflexivity]; discriminate).
     apply (itake_settles h os st i CNone HR).
@@ -134,6 +145,13 @@ Proof.
     destruct (igive (IS h os) j) as [[[ist1 itj]|]|e]; try (cbn; discriminate). apply iapply_nd.
   - apply settles_const; [reflexivity|cbn; discriminate].
   - apply settles_const; [reflexivity|cbn; discriminate].
+  - apply settles_const; [reflexivity|]. cbn [istep i_objs].
+    destruct args as [|a [|b args]]; try (cbn; discriminate). destruct tgt as [i|].
+    + destruct (nth_error os i) as [[it|its|]|]; try (cbn; discriminate).
+      destruct (igather (IS h os) (a :: b :: args)) as [[st1 its]|[st1 ob1]] eqn:E; [apply iapply_nd|].
+      cbn [snd]. eapply igather_nd; eauto.
+    + destruct (igather (IS h os) (a :: b :: args)) as [[[h1 os1] its]|[st1 ob1]] eqn:E; [cbn; discriminate|].
+      cbn [snd]. eapply igather_nd; eauto.
 Qed.
 
 Lemma run_total : forall ops ist st, R ist st -> Forall fin_op ops ->
